@@ -576,11 +576,14 @@ RETCODE adfUpdateCache ( struct AdfVolume * const   vol,
                 else {
                     /* the new record is larger */
 /*puts("oLen<nLen");*/
-                    rc = adfDelFromCache ( vol, parent, entry->headerKey );
+                    /* the new record is added first (this is the step that can
+                       fail, for lack of a free block), the old one - found first,
+                       it precedes the new one - is removed afterwards */
+                    rc = adfAddInCache ( vol, parent, entry );
                     if ( rc != RC_OK )
                         return rc;
 
-                    rc = adfAddInCache ( vol, parent, entry );
+                    rc = adfDelFromCache ( vol, parent, entry->headerKey );
                     if ( rc != RC_OK )
                         return rc;
 /*puts("oLen<nLen end");*/
